@@ -1,4 +1,5 @@
 import HcipyVerif.Lemmas.GridMut
+import HcipyVerif.Lemmas.GridHeap
 
 /-!
 # C10 — Grid identity: equality is an equivalence consistent with hashing
@@ -343,6 +344,108 @@ theorem shared_axis_acts_once (ax : List Rat) (f1 f2 b1 b2 : Rat) :
 theorem shared_delta_zero_acts_once (v : Rat) (n : Nat) (f b : Rat) :
     (Coords.regular [⟨v, n, v⟩]).scale [f] = .regular [⟨v * f, n, v * f⟩] ∧
     (Coords.regular [⟨v, n, v⟩]).shift [b] = .regular [⟨v, n, v + b⟩] := ⟨rfl, rfl⟩
+
+/-! ## Reference semantics: why "copies are untouched" holds, and when it would not
+
+The store of `Model/GridOps.lean` has value semantics, so the frame statements above (`stepStore_frame`,
+`copies_untouched_*`) restate a modelling decision.  The statements below are about the **reference
+model** of `Model/GridHeap.lean` (arrays in a heap, objects holding references, in-place operations
+writing through them), in which aliasing *can* happen: they say that it does not, as long as construction
+and `copy()` allocate (`Sep`, kept by every operation), and that it does as soon as one of them keeps a
+reference (`Bad.*`).  Tie: the driver runs this model (`ref …` requests) on the same histories; the
+harness compares the values every object sees and the number of shared arrays (`np.shares_memory`
+over all arrays of all live grids and the caller's arrays). -/
+
+/-- the invariant holds initially and is kept by every operation of the reference model -/
+theorem ref_sep_invariant (w : RWorld) (hs : w.Sep) (a : List (List Rat)) (refs : List Nat) (i : Nat) (ops : List ArrOp) :
+    RWorld.Sep {} ∧ (w.new a).Sep ∧ (w.construct refs).Sep ∧ (w.copy i).Sep ∧ (w.inplace i ops).Sep ∧ (w.copied i ops).Sep :=
+  ⟨by decide, w.Sep_new hs a, w.Sep_construct hs refs, w.Sep_construct hs _, w.Sep_inplace hs i ops,
+    RWorld.Sep_inplace _ (w.Sep_construct hs _) _ _⟩
+
+/-- **an in-place operation (`scale`, `shift`) changes the value of its target only — every other live
+grid, earlier copies and the caller's arrays included, reads the same values as before — and on the
+target every array is acted on exactly once** -/
+theorem ref_inplace_only_target (w : RWorld) (hs : w.Sep) (i : Nat) (hi : i < w.objs.length) (ops : List ArrOp)
+    (hl : ops.length = (w.objs[i]).refs.length) :
+    (w.inplace i ops).abs = w.abs.set i (List.zipWith (fun op a => op.apply a) ops (w.objs[i].val w.heap)) :=
+  w.abs_inplace hs i hi ops hl
+
+/-- **`copy()` / construction from arrays held elsewhere**: one more object with the same values; nothing else
+changes; and a later in-place operation on the source does not reach the copy. -/
+theorem ref_copy_independent (w : RWorld) (hs : w.Sep) (i : Nat) (hi : i < w.objs.length) (ops : List ArrOp)
+    (hl : ops.length = (w.objs[i]).refs.length) :
+    (w.copy i).abs = w.abs ++ [w.objs[i].val w.heap] ∧
+    ((w.copy i).inplace i ops).abs =
+      w.abs.set i (List.zipWith (fun op a => op.apply a) ops (w.objs[i].val w.heap)) ++ [w.objs[i].val w.heap] := by
+  have hget : w.objs.getD i ⟨[]⟩ = w.objs[i] := by simp [List.getD_eq_getElem?_getD, hi]
+  have hget' : w.objs[i]?.getD ⟨[]⟩ = w.objs[i] := by simp [hi]
+  have hc : (w.copy i).abs = w.abs ++ [w.objs[i].val w.heap] := by
+    have := w.abs_alloc hs (RObj.val w.heap w.objs[i])
+    simpa [RWorld.copy, RWorld.construct, RObj.deepCopy, RObj.val, hget, hget'] using this
+  refine ⟨hc, ?_⟩
+  have hs' : (w.copy i).Sep := w.Sep_construct hs _
+  have hi' : i < (w.copy i).objs.length := by simp [RWorld.copy, RWorld.construct]; omega
+  have hobj : (w.copy i).objs[i] = w.objs[i] := by simp [RWorld.copy, RWorld.construct, List.getElem_append_left hi]
+  have hval : (w.copy i).objs[i].val (w.copy i).heap = w.objs[i].val w.heap := by
+    rw [hobj]
+    exact w.val_grow hs.1 _ _ (List.getElem_mem hi)
+  rw [(w.copy i).abs_inplace hs' i hi' ops (by rw [hobj]; exact hl), hc, hval]
+  have : i < w.abs.length := by simpa [RWorld.abs] using hi
+  rw [List.set_append_left _ _ this]
+
+/-- **the non-mutating forms (`scaled`, `shifted`)**: a new object holding the transformed values; every
+existing object, the source included, untouched. -/
+theorem ref_copied_independent (w : RWorld) (hs : w.Sep) (i : Nat) (hi : i < w.objs.length) (ops : List ArrOp)
+    (hl : ops.length = (w.objs[i]).refs.length) :
+    (w.copied i ops).abs = w.abs ++ [List.zipWith (fun op a => op.apply a) ops (w.objs[i].val w.heap)] := by
+  have hget : w.objs.getD i ⟨[]⟩ = w.objs[i] := by simp [List.getD_eq_getElem?_getD, hi]
+  have hget' : w.objs[i]?.getD ⟨[]⟩ = w.objs[i] := by simp [hi]
+  have hc := (ref_copy_independent w hs i hi ops hl).1
+  have hs' : (w.copy i).Sep := w.Sep_construct hs _
+  have hn : w.objs.length < (w.copy i).objs.length := by simp [RWorld.copy, RWorld.construct]
+  have hobj : (w.copy i).objs[w.objs.length] = ⟨List.range' w.heap.length (w.objs[i]).refs.length⟩ := by
+    simp [RWorld.copy, RWorld.construct, RObj.deepCopy, hget, hget']
+  have hval : (w.copy i).objs[w.objs.length].val (w.copy i).heap = w.objs[i].val w.heap := by
+    have := RObj.deepCopy_val w.heap w.objs[i]
+    rw [hobj]
+    simpa [RWorld.copy, RWorld.construct, RObj.deepCopy, hget, hget'] using this
+  unfold RWorld.copied
+  rw [(w.copy i).abs_inplace hs' _ hn ops (by rw [hobj]; simpa using hl), hc, hval]
+  have : w.objs.length = w.abs.length := by simp [RWorld.abs]
+  rw [this, List.set_append_right _ _ (le_refl _)]
+  simp
+
+/-- **a copy that keeps the references aliases**: after `Bad.copy` an in-place operation on the source
+changes what the "copy" reads (and `Sep` fails) -/
+theorem Bad.copy_aliases :
+    ∃ w : RWorld, w.Sep ∧ ¬ (Bad.copy w 0).Sep ∧
+      ((Bad.copy w 0).inplace 0 [.mulS 2]).abs = [[[2, 4]], [[2, 4]]] ∧ ((w.copy 0).inplace 0 [.mulS 2]).abs = [[[2, 4]], [[1, 2]]] :=
+  ⟨RWorld.new {} [[1, 2]], by decide, by decide, by decide +kernel, by decide +kernel⟩
+
+/-- **a constructor that keeps the caller's array** (the defect repaired by D3/D4/D83): scaling the
+grid in place changes the caller's array; with one array passed for two axes the grid's own axes move
+twice. -/
+theorem Bad.construct_aliases :
+    ((Bad.construct (RWorld.new {} [[1, 2]]) [0, 0]).inplace 1 [.mulS 2, .mulS 2]).abs = [[[4, 8]], [[4, 8], [4, 8]]] ∧
+    (((RWorld.new {} [[1, 2]]).construct [0, 0]).inplace 1 [.mulS 2, .mulS 2]).abs = [[[1, 2]], [[2, 4], [2, 4]]] :=
+  ⟨by decide +kernel, by decide +kernel⟩
+
+/-- the array operations of the reference model are the coordinate arithmetic of the value model:
+separated / unstructured coordinates multiply (add to) array `k` by `f_k`; regular coordinates
+multiply `delta` and `zero` elementwise (add to `zero`) -/
+theorem ref_ops_are_coords_ops (a : List (List Rat)) (f b : List Rat) (r : List RegAxis) :
+    (Coords.separated a).scale f = .separated (List.zipWith (fun (op : ArrOp) x => op.apply x) (f.map ArrOp.mulS) a) ∧
+    (Coords.unstructured a).shift b = .unstructured (List.zipWith (fun (op : ArrOp) x => op.apply x) (b.map ArrOp.addS) a) ∧
+    (match (Coords.regular r).scale f with
+      | .regular r' => r'.map (·.delta) = ArrOp.apply (.mulV f) (r.map (·.delta)) ∧ r'.map (·.zero) = ArrOp.apply (.mulV f) (r.map (·.zero))
+      | _ => False) := by
+  refine ⟨?_, ?_, ?_⟩
+  · simp only [Coords.scale, Coords.separated.injEq, List.zipWith_map_left, ArrOp.apply]
+    rw [List.zipWith_comm]
+  · simp only [Coords.shift, Coords.unstructured.injEq, List.zipWith_map_left, ArrOp.apply]
+    rw [List.zipWith_comm]
+  · simp only [Coords.scale, ArrOp.apply, List.map_zipWith, List.zipWith_map_left]
+    exact ⟨trivial, trivial⟩
 
 /-! ## Old — the code before the repairs (documentation of D2 / D24; code that no longer exists in /repo:
 not evidence for the property) -/
